@@ -192,6 +192,8 @@ fn budget(prop: &str, tier: &str, seed: u64, scale: f64) -> Budget {
             sweeps.push(sweeps::small_geometry("C05", if quick { 200 } else if checked { 1300 } else { 600 }, if quick { 40 } else { 150 }));
             sweeps.push(sweeps::dimension_aliases("C05", seed));
             sweeps.push(sweeps::extreme_widths("C05"));
+            sweeps.push(sweeps::framed_symbols("C05", seed));
+            sweeps.push(sweeps::c05_unicode_encodings());
         }
         "C08" => {
             random_runs = r(250_000, 80_000, 12_000_000, 3_000_000);
@@ -205,6 +207,8 @@ fn budget(prop: &str, tier: &str, seed: u64, scale: f64) -> Budget {
             sweeps.push(sweeps::structured_data_fills("C08"));
             sweeps.push(sweeps::dimension_aliases("C08", seed));
             sweeps.push(sweeps::extreme_widths("C08"));
+            sweeps.push(sweeps::framed_symbols("C08", seed));
+            sweeps.push(sweeps::c08_adjacent_fixed_pairs(seed));
         }
         _ => {
             eprintln!("unknown property {}", prop);
